@@ -96,7 +96,11 @@ def render_vec(v, kind):
 def plan_st(draw, tier):
     cfg = draw(gen.config_st(metrics=gen.SAFE_METRICS, arm_kinds=("int", "str", "float"), max_arms=4, with_binarizer=True, scale_ok=True,
                              defaults_ok=True))
-    h = gen.History(draw, cfg, max_rows=7, exact_only=True, grid=draw(st.sampled_from(["int", "half", "nonneg", "mixed"])))
+    grid = draw(st.sampled_from(["int", "half", "nonneg", "mixed"]))
+    # (whole-number training contexts with fractional queries, one time in three: an integer history must not decide
+    # how a float query is read)
+    qgrid = "half" if grid in ("int", "nonneg") and draw(st.integers(0, 2)) == 0 else None
+    h = gen.History(draw, cfg, max_rows=7, exact_only=True, grid=grid, query_grid=qgrid)
     h.fit() if draw(st.integers(0, 3)) else h.partial_fit()
     for _ in range(draw(st.integers(1, 7))):
         gen.step_any(h, gen.TRAIN_KINDS + gen.ARM_KINDS + gen.QUERY_KINDS * 3 + gen.WARM_KINDS)
